@@ -70,7 +70,10 @@ partial def compileExpr (env : CEnv) (e : JS.Expr) : CM (Option TExpr) := do
     pure (some (.fcall "__op__map" args.flatten))
   | .dot a name =>
     match a with
-    | .num .. | .str _ | .bool _ | .null => .error (.parse "unexpected . after term")
+    | .null => .error (.parse "unexpected . after term")
+    | .str s => if (s.splitOn "${").length > 1 then .error (.domain "interpolated receiver") else
+      -- literal receivers are parenthesised by the transpiler: `("abc").length`
+      do pure (some (.field (← req a) name []))
     | _ => do pure (some (.field (← req a) name []))
   | .idx a i => do pure (some (.fcall "__pug__index" [← req a, ← req i]))
   | .call f args => do
@@ -81,7 +84,7 @@ partial def compileExpr (env : CEnv) (e : JS.Expr) : CM (Option TExpr) := do
       else .error (.parse s!"function \"{x}\" not defined")
     | .dot a name =>
       match a with
-      | .num .. | .str _ | .bool _ | .null => .error (.parse "unexpected . after term")
+      | .null => .error (.parse "unexpected . after term")
       | _ => do pure (some (.field (← req a) name targs))
     | _ => .error (.domain "callee shape")
   | .tpl parts => do
